@@ -58,7 +58,14 @@ def run(tier):
     cp = os.path.join(sd, "cfg.cases.ndjson")
     tp = os.path.join(sd, "cfg.trace.ndjson")
     vlib.write_ndjson(cp, allc)
-    vlib.run([binp, cp, tp], timeout=1500, cwd=vlib.REPO)
+    # process level: the real binary, for the "proc" cases
+    import subprocess
+    hb = os.path.join(sd, "helios")
+    env = dict(vlib.GOENV, GOCACHE=os.environ.get("GOCACHE", "/var/tmp/helios-verif-gocache"))
+    p = subprocess.run(["go", "build", "-o", hb, "./cmd/helios"], cwd=vlib.REPO, env=env, stdout=subprocess.PIPE, stderr=subprocess.STDOUT, text=True)
+    if p.returncode != 0:
+        raise vlib.FrameworkError("cannot build cmd/helios: " + p.stdout[-1500:])
+    vlib.run([binp, cp, tp], timeout=1500, cwd=vlib.REPO, env=dict(os.environ, HELIOS_BIN=hb))
     if not os.path.exists(tp + ".ok"):
         raise vlib.FrameworkError("cfgsim did not finish")
     chk.cov["traces_validated_against_impl"] = len(allc)
@@ -70,6 +77,9 @@ def run(tier):
         c = e["c"]
         if c["kind"] == "file":
             return {"clause": clause, "what": c["what"], "detail": e["o"]["detail"][:160]}
+        if c["kind"] == "proc":
+            return {"clause": clause, "kind": "process", "nondefault": {k: v for k, v in c["cfg"].items() if v not in ("8080", "off", "none", "one", "round_robin", "info", "json")},
+                    "proc": e["o"].get("proc"), "detail": e["o"]["detail"][:160]}
         nd = {k: v for k, v in c["cfg"].items() if v not in ("8080", "off", "none", "one", "round_robin", "info", "json")}
         return {"clause": clause, "nondefault": nd, "detail": e["o"]["detail"][:160]}
     cases.judge(chk, "ObsConfigTrace", "ObsConfigTrace.cfg", tp, sig, "cfg")
